@@ -43,6 +43,7 @@ var gvcAPIScenarios = []gvcAPIScenario{
 	{"elision-of-a-whole-assignment-side", "@@\n@@\n-x, ... = foo()\n+... = foo()\n", "package x\n\nfunc f() {\n\tx = foo()\n}\n", true},
 	{"elision-where-none-is-supported-on-a-plus-line", "@@\n@@\n-foo(x)\n+if ... { foo(x) }\n", "package x\n\nfunc f() {\n\tfoo(x)\n}\n", true},
 	{"comment-group-emptied-by-one-change-then-an-import-added-by-the-next", "@@\nvar x, y expression\n@@\n-foo(x, y)\n+y\n\n@@\n@@\n+import \"fmt\"\n\n-2\n+fmt.Println()\n", "package a\n\nfunc f() {\n\tfoo(1, // c\n\t\t2)\n}\n", true},
+	{"comments-of-a-function-between-two-rewritten-calls", "@@\nvar a, b expression\n@@\n-x := foo(a, b)\n+x := foo(a, b...)\n", "package a\n\nfunc first() {\n\tx := foo(1, xs)\n\t_ = x\n}\n\n// Doc of middle.\nfunc middle() {\n\t// inside middle\n\tbar() // trailing in middle\n}\n\nfunc last() {\n\tx := foo(2, ys)\n\t_ = x\n}\n", true},
 	{"elision-both-sides", "@@\n@@\n func f() {\n   ...\n-  foo()\n+  bar()\n+  baz()\n   ...\n }\n", "package a\n\nfunc f() {\n\ta()\n\tfoo()\n\tb()\n\tc()\n}\n", true},
 }
 
@@ -137,6 +138,13 @@ func TestGvcReplay(t *testing.T) {
 		if strings.Contains(in.Obligation, "the-slot-written-is-the-slot-that-matched") && sc.name == "added-import-and-top-level-decl" && r.err == nil &&
 			(!bytes.Contains(r.out, []byte("var before = 1")) || bytes.Contains(r.out, []byte("println(\"hi\")")) || bytes.Count(r.out, []byte("func hello()")) != 1) {
 			report(sc, fmt.Sprintf("the change adds an import and rewrites func hello; the rewritten declaration was written over another declaration: Apply returned %q", r.out))
+		}
+		if (in.Property == "C17" || in.Property == "C05") && sc.name == "comments-of-a-function-between-two-rewritten-calls" && r.err == nil {
+			for _, c := range []string{"// Doc of middle.", "// inside middle", "// trailing in middle"} {
+				if bytes.Count(r.out, []byte(c)) != 1 {
+					report(sc, fmt.Sprintf("comment %q of the untouched function between the two rewritten calls occurs %d times in the output (want 1): %q", c, bytes.Count(r.out, []byte(c)), r.out))
+				}
+			}
 		}
 		switch in.Property {
 		case "C09", "C16":
